@@ -159,6 +159,15 @@ func (x *Exec) callFunction(fr *frame, s *State, callee *ssa.Function, args []Va
 		for _, p := range callee.Params {
 			names = append(names, p.Name())
 		}
+		if len(names) == 0 {
+			sig := callee.Signature
+			if sig.Recv() != nil {
+				names = append(names, sig.Recv().Name())
+			}
+			for i := 0; i < sig.Params().Len(); i++ {
+				names = append(names, sig.Params().At(i).Name())
+			}
+		}
 		return x.applyContract(fr, s, ct, callee, callee.Name(), args, names, callee.Signature, pos)
 	}
 	if ct == nil && !isLocalClosure && x.E.autoPure(callee, 0) {
@@ -368,6 +377,7 @@ type modTarget struct {
 	ref, off Term
 	n        int64 // loc: number of leaves
 	len      Term  // elems: length in leaves
+	sorts    []Sort // loc: the sort of each leaf; elems: the sorts of an element
 }
 
 func (x *Exec) modTargets(env *specEnv, m *Clause) []modTarget {
@@ -387,7 +397,7 @@ func (x *Exec) modTargets(env *specEnv, m *Clause) []modTarget {
 			if !ok {
 				unsup("elems() of non-slice")
 			}
-			out = append(out, modTarget{kind: "elems", ref: v.L[0], off: v.L[1], len: mulOff(v.L[2], x.stride(sl.Elem()))})
+			out = append(out, modTarget{kind: "elems", ref: v.L[0], off: v.L[1], len: mulOff(v.L[2], x.stride(sl.Elem())), sorts: x.E.memLeafSorts(sl.Elem())})
 			continue
 		}
 		if ce, ok := isCallTo(e, "maps"); ok {
@@ -396,7 +406,7 @@ func (x *Exec) modTargets(env *specEnv, m *Clause) []modTarget {
 			continue
 		}
 		ref, off, t := env.addrOf(e)
-		out = append(out, modTarget{kind: "loc", ref: ref, off: off, n: x.E.size(t)})
+		out = append(out, modTarget{kind: "loc", ref: ref, off: off, n: x.E.size(t), sorts: x.E.memLeafSorts(t)})
 	}
 	return out
 }
@@ -426,9 +436,9 @@ func (x *Exec) havocModifies(env *specEnv, s *State, m *Clause) {
 	if len(ts) == 0 {
 		return
 	}
-	heapTouched := false
 	for _, t := range ts {
-		if t.kind == "maps" {
+		switch t.kind {
+		case "maps":
 			// havoc the map object: fresh dom / values at that ref
 			for k := range s.MapDom {
 				d := x.mapDom(s, k)
@@ -438,31 +448,34 @@ func (x *Exec) havocModifies(env *specEnv, s *State, m *Clause) {
 			// maps not yet materialised: conservatively new generation
 			s.Base = fmt.Sprintf("c%d", x.baseCounter)
 			s.MapVal = map[string]Term{}
-			continue
+		case "loc":
+			// explicit stores of fresh leaves: quantifier-free and exact
+			for i, k := range t.sorts {
+				h := s.Heaps[k]
+				obj := Select(h, t.ref, ObjSort(k))
+				s.Heaps[k] = x.C.Define("H", Store(h, t.ref, Store(obj, offAdd(t.off, int64(i)), x.C.Fresh("mod", k))))
+			}
+		case "obj":
+			for _, k := range AllLeafSorts {
+				s.Heaps[k] = x.C.Define("H", Store(s.Heaps[k], t.ref, x.C.Fresh("modobj", ObjSort(k))))
+			}
+		case "elems":
+			seen := map[Sort]bool{}
+			for _, k := range t.sorts {
+				if seen[k] {
+					continue
+				}
+				seen[k] = true
+				h := s.Heaps[k]
+				old := Select(h, t.ref, ObjSort(k))
+				obj := x.C.Fresh("modelems", ObjSort(k))
+				o := x.C.BoundVar("o", SBV64)
+				x.C.Assume(Implies(s.Reach, Forall([]Term{o}, Or(BVCmp("bvult", BVOp("bvsub", o, t.off), t.len), Eq(Select(obj, o, k), Select(old, o, k))))))
+				s.Heaps[k] = x.C.Define("H", Store(h, t.ref, obj))
+			}
 		}
-		heapTouched = true
 	}
-	if !heapTouched {
-		return
-	}
-	pre := map[Sort]Term{}
-	for _, k := range AllLeafSorts {
-		pre[k] = s.Heaps[k]
-	}
-	pre0Frontier := s.Frontier
-	for _, k := range AllLeafSorts {
-		nh := x.C.Fresh("H_mod", HeapSort(k))
-		r := x.C.BoundVar("r", SInt)
-		o := x.C.BoundVar("o", SBV64)
-		x.C.Assume(Implies(s.Reach, Forall([]Term{r, o}, Or(inTargets(ts, r, o), App(SBool, ">=", r, pre0Frontier),
-			Eq(Select(Select(nh, r, ObjSort(k)), o, k), Select(Select(pre[k], r, ObjSort(k)), o, k))))))
-		s.Heaps[k] = nh
-	}
-	nf := x.C.Fresh("frontier", SInt)
-	x.C.Assume(Implies(s.Reach, App(SBool, "<=", s.Frontier, nf)))
-	s.Frontier = nf
 }
-
 // autoPure: a package function that is loop-free, writes nothing but its own
 // locals, and calls only functions of the same kind or modelled pure library
 // functions. Such callees are inlined exactly.
